@@ -1038,7 +1038,7 @@ class Router(object):
                     tokens.append(part[1:])
                     re_str += "\\/([^\\/]+)"
             else:
-                re_str += '\\/' + part
+                re_str += '\\/' + re.escape(part)
 
         if re_str != "^\\/":
             re_str += "\\/?"
